@@ -408,6 +408,14 @@ def order_of_sequence(prog, fn, seqvar, before_node):
             if dst.k == 'CallExpr' and dst.callee and dst.callee['name'] in ('back_inserter', 'inserter') and ex.var_of(dst.args()[0]) == seqvar:
                 s = n.args()[0].strip_all()
                 fills.append((n, s.object_arg() if s.k == 'CXXMemberCallExpr' else None))
+    # range construction: std::vector<T> v(src.begin(), src.end())
+    for n in fn.walk():
+        if n.k == 'VarDecl' and n.decl_id == seqvar and n.c:
+            c0 = n.c[0].strip()
+            if c0.k in ex.CTOR_KINDS and len(c0.c) >= 2:
+                a0 = c0.c[0].strip_all()
+                if a0.k == 'CXXMemberCallExpr' and a0.callee and a0.callee['name'] in ('begin', 'cbegin'):
+                    fills.append((n, a0.object_arg()))
     tainted_src = None
     for (n, src) in fills:
         if src is not None and is_address_ordered(prog, src.strip_all().j.get('t')):
